@@ -2,63 +2,9 @@
 # Correspondence stream (implementation vs executable Coq model) + DIRECT oracle: an independent pure-python
 # Ed25519 (props/edref.py: affine formulas, RFC 8032 strict decompression) decides acceptance and recomputes
 # every arithmetic result byte for byte.
-import framework as fw
-from framework import Check, Case
+from framework import Case
 from props import edref as ed
-
-P, L = ed.P, ed.L
-
-
-def hx(b):
-    return bytes(b).hex() if len(b) else "-"
-
-
-def le(n):
-    return n.to_bytes(32, "little")
-
-
-def text(s):
-    return hx(s.encode())
-
-
-CHEAP_OPS = ("sk", "sk_str", "sk_dec", "skop")
-
-
-class CurveCheck(Check):
-    """shared by C13/C10/C11: the framework's uniform evaluator-A sample is switched off (one scalar multiplication
-    costs ~25 s under coqc vm_compute); instead `extra_coverage` cross-checks evaluator B against evaluator A on
-    all sampled CHEAP cases plus `evalA_curve_cases` curve cases chosen by `evalA_pick`."""
-    evalA_sample = 0
-    evalA_cheap = 400
-    evalA_curve_ops = ()       # op names of curve cases eligible for the kernel re-evaluation
-    evalA_curve_cases = 0
-
-    def extra_coverage(self, cases, impl, model):
-        if not cases or not model:
-            return {}
-        cheap = [(c.line, m) for c, m in zip(cases, model) if c.line.split(" ")[0] in CHEAP_OPS][:self.evalA_cheap]
-        curve = [(c.line, m) for c, m in zip(cases, model)
-                 if c.line.split(" ")[0] in self.evalA_curve_ops and m.startswith("OK")][:self.evalA_curve_cases]
-        pairs = cheap + curve
-        # curve cases go to shards of their own (shard = 1 after the cheap block) so that they run in parallel
-        bad = fw.run_evalA(cheap, self.pid + "-cheap") if cheap else []
-        if bad:
-            raise fw.Infra("evaluators A and B disagree on %r" % cheap[bad[0]][0][:300])
-        bad = fw.run_evalA(curve, self.pid + "-curve", shard=1) if curve else []
-        if bad:
-            raise fw.Infra("evaluators A and B disagree on %r" % curve[bad[0]][0][:300])
-        return {"evaluatorA_cases_crosschecked": len(pairs),
-                "evaluatorA_note": "uniform sampling disabled (25 s per scalar multiplication in vm_compute); "
-                                   "%d cheap cases and %d curve cases re-evaluated by coqc" % (len(cheap), len(curve)),
-                "evaluatorA_curve_lines": [l for l, _ in curve]}
-
-
-def rand_point(rng, torsion=None):
-    """a random curve point; with torsion=list of the 8 small-order points, a random one of them is added"""
-    pt = ed.mul(rng.randrange(1, L), ed.B)
-    if torsion:
-        pt = ed.add(pt, rng.choice(torsion))
-    return pt
+from props.curve_common import CurveCheck, hx, le, text, rand_point, P, L
 
 
 class C13(CurveCheck):
@@ -75,10 +21,11 @@ class C13(CurveCheck):
                   "arithmetic theorems hold for EVERY group satisfying the EdLaws record (names end in _partial) - that "
                   "curve25519-dalek's and the executable model's arithmetic is such a group is NOT proved (DESIGN section 8), "
                   "it is checked by computation: model = implementation = independent python reference on every case")
-    evalA_curve_ops = ("pk", "torsion")
-    evalA_curve_cases = 2
+    evalA_lines = ("pk eac2cc96e0ae684388e3185d5277e51313bff98b9ad4a12dcd9205f20d37f1a3", "torsion 5")
+    evalA_lines_thorough = ("pkop frompriv 77916d0cd56ed1920aef6ca56d8a41bac915b68e4c46a589e0956e27a7b77404",
+                            "pk 0100000000000000000000000000000000000000000000000000000000000080")
 
-    def gen(self, tier, rng):
+    def gen_cases(self, tier, rng):
         q = tier == "quick"
         cs = []
         T = ed.torsion_points()
@@ -88,6 +35,7 @@ class C13(CurveCheck):
         cs.append(Case("sk 77916d0cd56ed1920aef6ca56d8a41bac915b68e4c46a589e0956e27a7b77404", "corpus"))
         cs.append(Case("ident 77916d0cd56ed1920aef6ca56d8a41bac915b68e4c46a589e0956e27a7b77404 "
                        "8163466f1883598e6dd14027b8da727057165da91485834314f5500a65846f09", "corpus"))
+        cs.append(Case("pkop frompriv 77916d0cd56ed1920aef6ca56d8a41bac915b68e4c46a589e0956e27a7b77404", "corpus"))
         for i in range(8):
             cs.append(Case("torsion %d" % i, "torsion"))
         # -- public-key acceptance
@@ -145,7 +93,7 @@ class C13(CurveCheck):
             cs.append(Case("pk_str " + text(self.hexvariant(b, rng)), "pk_str"))
         # -- secret keys
         skv = [0, 1, 2, L - 2, L - 1, L, L + 1, L + 2, 2**252 - 1, 2**252, 2**252 + 1, 2 * L - 1, 2 * L, 2**253 - 1,
-               2**253, 8 * L, 2**255 - 20, 2**255 - 19, 2**255 - 1, 2**255, 2**256 - 1, 2**256 - 2**128, 16 * L - 1]
+               2**253, 8 * L, 2**255 - 20, 2**255 - 19, 2**255 - 1, 2**255, 2**256 - 1, 2**256 - 2**128, 15 * L - 1]
         for _ in range(1500 if q else 50000):
             k = rng.random()
             if k < 0.4:
